@@ -265,7 +265,24 @@ def a_validate(traces: List[dict]) -> tuple:
     return validate_batch("AppLifecycleTrace", "AppLifecycleTrace.cfg", traces, timeout=900)
 
 
-def a_judge(ctx: Ctx, traces: List[dict], model_cex: Dict[str, Any]) -> Dict[str, int]:
+def a_model_counterexample(ctx: Ctx, dev: str) -> Optional[dict]:
+    """The ideal design with only this deviation switched on: TLC exhibits the counterexample."""
+    full = ["ExactlyOnceIffStarted", "NeverExitUnstarted", "ReverseOrder", "ErrorsSurface"]
+    res = run_tlc("AppLifecycle", a_cfg("dev_" + dev, {dev: False}, 1, full,
+                                        entries=["RunApp"] if dev == "SetupInTry" else ["Runner"]),
+                  workers=16, timeout=300)
+    require_clean(res, f"AppLifecycle[{dev}=FALSE]")
+    ctx.add_model(f"AppLifecycle[only {dev}=FALSE]", res, exhaustive=False)
+    if not res.violated:
+        ctx.notes.append(f"A: deviation constant {dev}=FALSE no longer violates the model invariants")
+        return None
+    last = res.trace[-1][1].get("s", {}) if res.trace else {}
+    return {"violated": res.violated, "deviation": dev,
+            "final": {k: last.get(k) for k in ("entry", "failStart", "failShut", "failClean", "siteFails",
+                                               "entered", "exited", "log")}}
+
+
+def a_judge(ctx: Ctx, traces: List[dict]) -> Dict[str, int]:
     """TLC judges every event log; violations are grouped per (clause, entry) with a minimal example."""
     counts: Dict[str, int] = {}
     groups: Dict[str, List[dict]] = {}
@@ -292,8 +309,10 @@ def a_judge(ctx: Ctx, traces: List[dict], model_cex: Dict[str, Any]) -> Dict[str
             per_entry[x["cfg"]["entry"]] = per_entry.get(x["cfg"]["entry"], 0) + 1
         detail = {"trace": t, "occurrences": len(ts), "occurrences_per_entry": per_entry, "part": "A"}
         dev = [d for d, c in DEV_CLAUSE.items() if c == clause]
-        if dev and dev[0] in model_cex:
-            detail["model_counterexample"] = model_cex[dev[0]]
+        if dev:      # a named deviation was observed: let TLC exhibit it in the model as well
+            cex = a_model_counterexample(ctx, dev[0])
+            if cex:
+                detail["model_counterexample"] = cex
         ctx.violation(clause, f"{clause}: {a_describe(t)} [entries affected: {','.join(sorted(per_entry))}]",
                       detail, "trace")
     for n, k in sorted(notes.items()):
@@ -320,23 +339,8 @@ def run_part_a(ctx: Ctx) -> None:
             ctx.action_cover["A:" + act] = tot
             if tot == 0:
                 ctx.notes.append(f"vacuity: action {act} never taken in AppLifecycle[as-coded]")
-    # 3. each deviation alone: TLC exhibits the counterexample (attached to the matching finding)
-    model_cex: Dict[str, Any] = {}
-    for dev in DEVS:
-        res = run_tlc("AppLifecycle", a_cfg("dev_" + dev, {dev: False}, 1, full,
-                                            entries=["RunApp"] if dev == "SetupInTry" else ["Runner"]),
-                      workers=16, timeout=300)
-        require_clean(res, f"AppLifecycle[{dev}=FALSE]")
-        ctx.add_model(f"AppLifecycle[only {dev}=FALSE]", res, exhaustive=False)
-        if res.violated:
-            last = res.trace[-1][1].get("s", {}) if res.trace else {}
-            model_cex[dev] = {"violated": res.violated, "deviation": dev,
-                              "final": {k: last.get(k) for k in ("entry", "failStart", "failShut", "failClean",
-                                                                 "siteFails", "entered", "exited", "log")}}
-        else:
-            ctx.notes.append(f"A: deviation constant {dev}=FALSE no longer violates the model invariants")
-    ctx.extra["A_model_counterexamples"] = {k: v["violated"] for k, v in model_cex.items()}
-    # 4. spec -> code -> spec: every initial state is replayed into the real application
+    # 3. spec -> code -> spec: every initial state is replayed into the real application;
+    #    a named deviation that shows up is also exhibited by TLC in the model (a_model_counterexample)
     inits = a_enumerate_inits(ctx, msf)
     drv = LifeDriver()
     traces: List[dict] = []
@@ -348,7 +352,7 @@ def run_part_a(ctx: Ctx) -> None:
     finally:
         drv.close()
     ctx.log(f"A replayed {len(inits)} initial states -> {len(traces)} executions of the real Application")
-    counts = a_judge(ctx, traces, model_cex)
+    counts = a_judge(ctx, traces)
     ctx.extra["A_initial_states"] = len(inits)
     ctx.extra["A_executions"] = len(traces)
     ctx.extra["A_clause_counts"] = counts
@@ -820,7 +824,24 @@ def b_judge(ctx: Ctx, traces: List[dict], label: str, counts: Dict[str, int], gr
                 groups.setdefault(cl, []).append(t)
 
 
-def b_report(ctx: Ctx, groups: Dict[str, List[dict]], model_cex: Dict[str, Any]) -> None:
+def b_model_counterexample(ctx: Ctx, dev: str, model: tuple) -> Optional[dict]:
+    nconn, durs, dts = model
+    res = run_tlc("ServerShutdown", b_cfg("dev_" + dev, nconn, durs, dts, {dev: False}, B_INVS), workers=16, timeout=300)
+    require_clean(res, f"ServerShutdown[{dev}=FALSE]")
+    ctx.add_model(f"ServerShutdown[only {dev}=FALSE]", res, exhaustive=False)
+    if not res.violated:
+        ctx.notes.append(f"B: {dev}=FALSE no longer violates {B_DEVS[dev][0]} in the model")
+        return None
+    return {"violated": res.violated, "deviation": dev, "steps": [a for a, _ in res.trace]}
+
+
+def b_report(ctx: Ctx, groups: Dict[str, List[dict]], model: tuple) -> None:
+    model_cex: Dict[str, Any] = {}
+    for dev, (_inv, _weak, clause) in B_DEVS.items():
+        if clause in groups:
+            cex = b_model_counterexample(ctx, dev, model)
+            if cex:
+                model_cex[clause] = cex
     for clause, ts in sorted(groups.items()):
         t = min(ts, key=b_weight)
         detail = {"trace": {k: t[k] for k in ("cfg", "src", "scen", "events")}, "failed_at": t.get("failed_at"),
@@ -835,7 +856,6 @@ def run_part_b(ctx: Ctx) -> None:
 
     _quiet_logs()
     models = ctx.pick([(2, [1, 3, 99], [0, 1, 3])], [(2, [1, 2, 3, 4, 99], [0, 1, 3, 5]), (3, [1, 3, 99], [1])])
-    model_cex: Dict[str, Any] = {}
     for nconn, durs, dts in models:
         tag = f"{nconn} conns, durs={durs}, deliveries at {dts}, T=2"
         res = run_tlc("ServerShutdown", b_cfg("ideal", nconn, durs, dts, {}, B_INVS), workers=16,
@@ -854,18 +874,6 @@ def run_part_b(ctx: Ctx) -> None:
                 ctx.action_cover["B:" + act] = ctx.action_cover.get("B:" + act, 0) + tot
                 if tot == 0:
                     ctx.notes.append(f"vacuity: action {act} never taken in ServerShutdown[as-coded]({tag})")
-    # each deviation alone: TLC exhibits the counterexample
-    nconn, durs, dts = models[0]
-    for dev, (inv, _weak, clause) in B_DEVS.items():
-        res = run_tlc("ServerShutdown", b_cfg("dev_" + dev, nconn, durs, dts, {dev: False}, B_INVS), workers=16,
-                      timeout=300)
-        require_clean(res, f"ServerShutdown[{dev}=FALSE]")
-        ctx.add_model(f"ServerShutdown[only {dev}=FALSE]", res, exhaustive=False)
-        if res.violated:
-            model_cex[clause] = {"violated": res.violated, "deviation": dev, "steps": [a for a, _ in res.trace]}
-        else:
-            ctx.notes.append(f"B: {dev}=FALSE no longer violates {inv} in the model")
-    ctx.extra["B_model_counterexamples"] = {k: v["violated"] for k, v in model_cex.items()}
     # spec -> code -> spec
     scens: List[dict] = []
     for mdl in (models[:1] if ctx.quick else models):
@@ -903,7 +911,7 @@ def run_part_b(ctx: Ctx) -> None:
         ctx.log(f"B ran {n} random placements")
     finally:
         loop.uninstall()
-    b_report(ctx, groups, model_cex)
+    b_report(ctx, groups, models[0])
     ctx.extra["B_placements_replayed"] = nrep
     ctx.extra["B_random_placements"] = n
     ctx.extra["B_clause_counts"] = counts
